@@ -35,7 +35,7 @@ def loop(invariant=(), decreases=(), index="_i", types=None, modifies=None):
 class Contract:
     def __init__(self, name, params=None, requires=(), ensures=(), raises=(), returns=None, loops=None, modifies=None,
                  ensures_raise=(), props=(), verify_only=False, site_requires=None, status="proved", cases=None, note="", reify=None,
-                 max_paths=400, target=None, elements_are_keys=False, ghost_entry=None, heavy=False, when=None):
+                 max_paths=400, target=None, elements_are_keys=False, ghost_entry=None, heavy=False, when=None, modifies_heap=None, clock_reads=0):
         self.name = name
         self.params = params or {}
         self.requires = [requires] if isinstance(requires, str) else list(requires)
@@ -59,6 +59,8 @@ class Contract:
         self.reify = reify
         self.max_paths = max_paths
         self.elements_are_keys = elements_are_keys
+        self.clock_reads = clock_reads  # how many readings of time.time() the function may take (call sites advance the clock)
+        self.modifies_heap = modifies_heap or []  # (heap class, field) pairs the function may write
         self.when = when  # optional predicate(bound args dict) selecting this contract at a call site
         self.heavy = heavy  # verified in the thorough tier only (minutes of solver time)
         self.ghost_entry = ghost_entry or {}  # ghost name -> expression evaluated over the pre-state
@@ -88,8 +90,9 @@ Contract.raise_clauses = _raise_clauses
 class Lemma:
     """Level-2 lemma: proved from contract postconditions only (never looks at code)."""
 
-    def __init__(self, name, params, uses=(), hyps=(), goals=(), props=(), note=""):
+    def __init__(self, name, params, uses=(), hyps=(), goals=(), props=(), note="", pre_hyps=()):
         self.name = name
+        self.pre_hyps = list(pre_hyps)  # assumed before the contract uses (pre-state facts for heap-modifying contracts)
         self.params = params
         self.uses = list(uses)  # (contract name, {param: expr}, result var name)
         self.hyps = list(hyps)
@@ -135,6 +138,7 @@ class Registry:
         self.contracts = {}
         self.lemmas = {}
         self.steps = {}
+        self.heap_classes = {}  # qualname -> {field: Ty}
         self.roundtrips = {}
         self.statics = {}  # name -> (callable(reg) -> result dict, props)
         self.classes = {}
@@ -155,6 +159,17 @@ class Registry:
         l = Lemma(name, **kw)
         self.lemmas[name] = l
         return l
+
+    def declare_heap_class(self, name, /, **fields):
+        """Objects of this class live in the symbolic heap (one array per field)."""
+        self.heap_classes[name] = dict(fields)
+
+    def heap_decl(self, cls):
+        for k in getattr(cls, "__mro__", ()):
+            d = self.heap_classes.get(f"{k.__module__}.{k.__qualname__}")
+            if d is not None:
+                return f"{k.__module__}.{k.__qualname__}", d
+        return None, None
 
     def roundtrip(self, name, **kw):
         self.roundtrips[name] = RoundTrip(name, **kw)
@@ -247,7 +262,7 @@ class Registry:
         fr = Frame(fn, locals_, fn.__globals__, None)
         tag = f"call:{c.name}"
         I.prove_clauses(c.requires, fr, f"{tag}.requires")
-        memo = {}
+        memo = {"__heap__": dict(I.path.heap)}
         from .models2 import snapshot_value
 
         pre_locals = {k: snapshot_value(v, memo) for k, v in locals_.items()}
@@ -268,6 +283,14 @@ class Registry:
             if mode == "iff":
                 I.assume_ast(ast.UnaryOp(op=ast.Not(), operand=I.clause_ast(cond)), pre)
         self._havoc_modifies(I, c, fr)
+        if c.clock_reads:
+            # the callee's readings of the external clock: fresh, monotone, after the caller's last one;
+            # its clauses name them time_1..time_n / time_last
+            from .models2 import m_time
+
+            for k in range(1, c.clock_reads + 1):
+                fr.locals[f"time_{k}"] = m_time(I, [], {})
+            fr.locals["time_last"] = fr.locals[f"time_{c.clock_reads}"]
         result = I.fresh(c.returns, "ret_" + c.name.rsplit(".", 1)[-1]) if c.returns is not None else None
         fr.locals["result"] = result
         try:
@@ -284,6 +307,12 @@ class Registry:
 
     def _havoc_modifies(self, I, c, fr):
         from .interp import _is_mutable_box
+        from .models import heap_array
+
+        for clsname_, field_ in getattr(c, "modifies_heap", []):
+            decl_ = self.heap_classes[clsname_]
+            heap_array(I, clsname_, field_, decl_[field_])
+            I.path.heap[(clsname_, field_)] = z3.Const(I.path.fresh_name(f"heap_{field_}"), z3.ArraySort(S.IntS, S.sort_of(decl_[field_])))
 
         for expr, ty in c.modifies.items():
             if "." not in expr:
@@ -308,6 +337,7 @@ class Registry:
 
 
 REG = Registry()
+S.RESOLVE_CLS = REG.resolve
 
 # ----------------------------------------------------------------------------- verification of one contract
 
@@ -404,6 +434,10 @@ def verify_contract(reg: Registry, c: Contract, opts=None):
         res["status"] = "vacuous"
     else:
         res["status"] = "proved"
+    if opts.get("vacuous_inst"):
+        # such a path is infeasible only once the quantified hypotheses are instantiated (e.g. a branch that
+        # contradicts a quantified precondition); reported, and never counted as a cover
+        res["paths_infeasible_after_instantiation"] = opts["vacuous_inst"]
     res["wall_s"] = round(time.time() - t0, 3)
     res["solver_time_s"] = round(res["solver_time_s"], 3)
     return res
@@ -424,7 +458,7 @@ def _run_one(reg, I: Interp, c: Contract, fn, info, case):
     I.assume_clauses(c.requires, fr)
     if case:
         I.assume_clauses(case.get("requires", []), fr)
-    memo = {}
+    memo = {"__heap__": dict(I.path.heap)}
     pre_locals = {k: snapshot_value(v, memo) for k, v in values.items()}
     pre = Frame(fn, pre_locals, fn.__globals__, None)
     for k, v in pre_locals.items():
@@ -435,6 +469,10 @@ def _run_one(reg, I: Interp, c: Contract, fn, info, case):
         ghost0[gname] = gv
         fr.locals[gname] = gv
     args, kwargs = _ordered_args(fn, info, values)
+    sig = {x.arg for x in info.node.args.posonlyargs + info.node.args.args + info.node.args.kwonlyargs}
+    for nm, v in values.items():
+        if nm not in sig:
+            ghost0[nm] = v  # ghost parameter: constrained by `requires`, visible to every clause, not passed to the function
     for v in values.values():
         if isinstance(v, SObj) and c.name.endswith(".__init__") and v is values.get("self"):
             v.in_init = True
@@ -483,6 +521,7 @@ def verify_lemma(reg: Registry, l: Lemma, opts=None):
         try:
             env = {nm: I.fresh(ty, nm) for nm, ty in l.params.items()}
             fr = Frame(None, env, reg.spec_globals(), None)
+            I.assume_clauses(l.pre_hyps, fr)
             for cname, binding, resname in l.uses:
                 c = reg.contracts[cname]
                 fn = reg.resolve_function(c.target)
@@ -492,8 +531,22 @@ def verify_lemma(reg: Registry, l: Lemma, opts=None):
                     sub["old_" + pn] = sub[pn]
                 r = I.fresh(c.returns, resname) if c.returns is not None else None
                 sub["result"] = r
+                if getattr(c, "modifies_heap", None):
+                    from .models import heap_array
+                    from .models2 import snapshot_value
+
+                    # pre-state view for old_*, then an arbitrary post-state of the fields the contract may write
+                    memo = {"__heap__": dict(path.heap)}
+                    for pn in binding:
+                        sub["old_" + pn] = snapshot_value(sub[pn], memo)
+                    env["heap_before_" + resname] = memo["__heap__"]
                 sfr = Frame(fn, sub, fn.__globals__, None)
                 I.assume_clauses(c.requires, sfr)
+                if getattr(c, "modifies_heap", None):
+                    for clsname_, field_ in c.modifies_heap:
+                        decl_ = reg.heap_classes[clsname_]
+                        heap_array(I, clsname_, field_, decl_[field_])
+                        path.heap[(clsname_, field_)] = z3.Const(path.fresh_name(f"heap_{field_}"), z3.ArraySort(S.IntS, S.sort_of(decl_[field_])))
                 for exc_name, cond, mode in c.raises:
                     if mode == "iff":
                         I.assume_ast(ast.UnaryOp(op=ast.Not(), operand=I.clause_ast(cond)), sfr)
@@ -517,12 +570,14 @@ def verify_lemma(reg: Registry, l: Lemma, opts=None):
     obs = res["obligations"]
     if res["unsupported"]:
         res["status"] = "unsupported"
-    elif not obs or res["covers"] == 0:
+    elif not obs:
         res["status"] = "vacuous"
     elif any(o["status"] == "sat" for o in obs):
         res["status"] = "failed"
     elif any(o["status"] != "unsat" for o in obs):
         res["status"] = "undecided"
+    elif res["covers"] == 0:
+        res["status"] = "vacuous"
     else:
         res["status"] = "proved"
     res["wall_s"] = round(time.time() - t0, 3)
